@@ -23,10 +23,11 @@ EXPLANATION = ('After every operation, for every resource: the usage recorded pe
                'start, 0), 0); the real compaction functions of driver/main.py leave every per-key total unchanged. '
                'Operations: schedule, creating, started, complete, unschedule, deactivate, the real billing heartbeat '
                '(billing_update_1), the real add_attempt_resources (before or after start), both real compaction functions.'
-               + sc_.BMC_TEXT + ' Quantities are the constants 3 and 5 per resource (the identity is linear in the quantity; '
+               + sc_.BMC_TEXT + ' Quantities are constants per resource and report (3 and 5, or 7 and 2 in a later report about the same attempt) (the identity is linear in the quantity; '
                'symbolic x symbolic products are avoided), times and tokens and billing dates are symbolic.')
 
 QUANT = {1: 3, 2: 5}
+QUANT_ALT = {1: 7, 2: 2}   # a later report about the same attempt may carry other quantities (job-private: whole machine, then job spec)
 ALPH = ['schedule', 'creating', 'started', 'complete', 'unschedule', 'deactivate', 'heartbeat', 'add_resources', 'compact',
         'compact_by_date']
 DEEP = [
@@ -37,6 +38,7 @@ DEEP = [
     ('schedule', 'started', 'add_resources', 'complete', 'complete'),
     ('schedule', 'add_resources', 'started', 'deactivate', 'heartbeat'),
     ('schedule', 'started', 'add_resources', 'add_resources', 'heartbeat'),
+    ('started', 'add_resources', 'heartbeat', 'add_resources', 'heartbeat'),                 # re-registration after time accrued
     ('started', 'add_resources', 'heartbeat', 'compact', 'heartbeat', 'compact'),            # second compaction of a key
     ('started', 'add_resources', 'heartbeat', 'compact_by_date', 'heartbeat', 'compact_by_date'),
 ]
@@ -149,7 +151,8 @@ class BillingScenario(bmc.Scenario):
         # which resources this report carries is symbolic (at least the first); quantities are fixed constants
 
         def make(app):
-            res = [{'name': f'res{r}', 'quantity': QUANT[r]} for r in self.sizes.dom('res')
+            alt = self.inp.choose(f'{tag}_other_quantities', [False, True])
+            res = [{'name': f'res{r}', 'quantity': (QUANT_ALT if alt else QUANT)[r]} for r in self.sizes.dom('res')
                    if r == 1 or self.inp.choose(f'{tag}_has_res{r}', [True, False])]
             app['resource_name_to_id'] = names
             return dj.add_attempt_resources(app, app['db'], 1, jj, aa, res)
